@@ -75,6 +75,20 @@ def run(tier, seed, ev):
                 else:
                     _st.pack_into("<I", h, 24, total); _st.pack_into("<I", h, 28, first)
                 cases.append(bytes(h))
+    # level 3: the 32-bit size fields at the values where 32-bit sums wrap (2^32 - k for small k puts "offset + size" back inside the header),
+    # at the sign bit, and around the 1 MiB cap - in the first size field and in the one that ends the first extended header
+    import struct as _st
+    h0 = arc.Member(level=3, method=b"-lh0-", payload=b"", os=ord("U"), exts=[arc.x_name(b"nm"), arc.x_perm(0o644)], fix_common=False).bytes()
+    assert _st.unpack_from("<I", h0, 28)[0] == 7 and _st.unpack_from("<I", h0, 35)[0] == 7, "layout of the level-3 base header"
+    wide = [2 ** 32 - k for k in range(1, 72)] + [2 ** 31 + d for d in (-2, -1, 0, 1, 5)] + [0xFFFF0000 + d for d in (0, 7, 0x30)] + \
+           [0x10000, 0x10007, 0x100000, 0x100001, 0xFFFFF, 0x1000000]
+    for pos in (28, 35, 24):
+        for v in wide:
+            for tail in (body, b"", b"\0" * 64):
+                hh = bytearray(h0 + tail)
+                _st.pack_into("<I", hh, pos, v)
+                cases.append(bytes(hh))
+    ev.set("level3_wide_size_cases", 3 * 3 * len(wide))
     # plus sparse mutations of many more random headers
     for i in range(200 if tier == "quick" else 3000):
         h = HG.wellformed_header(rng)
